@@ -31,7 +31,7 @@ def fixedTarget (m : ModelS α) (parent : Nat) (frame : XT α) : Nat × XT α :=
   else (parent, frame)
 
 /-- what `AddBodyFixedJoint` does once the parent has been resolved to `(mp, pX)` -/
-def fixedResult (m : ModelS α) (mp : Nat) (pX : XT α) (b : Body α) (name : String) :
+def fixedResultS (m : ModelS α) (mp : Nat) (pX : XT α) (b : Body α) (name : String) :
     ModelS α × Except Err Nat :=
   match (m.body mp).join pX b with
   | none => (m, .error .zeroMass)
@@ -46,7 +46,7 @@ def fixedResult (m : ModelS α) (mp : Nat) (pX : XT α) (b : Body α) (name : St
 theorem addBodyFixed_eq (m : ModelS α) (parent : Nat) (frame : XT α) (b : Body α) (name : String) :
     m.addBodyFixed parent frame b name
       = if name ≠ "" ∧ m.hasName name then (m, .error .duplicateName)
-        else m.fixedResult (m.fixedTarget parent frame).1 (m.fixedTarget parent frame).2 b name := by
+        else m.fixedResultS (m.fixedTarget parent frame).1 (m.fixedTarget parent frame).2 b name := by
   rfl
 
 /-- facts about a successful `AddBodyFixedJoint` -/
@@ -66,7 +66,7 @@ theorem addBodyFixed_ok {m : ModelS α} {parent : Nat} {frame : XT α} {b : Body
   · cases hadd
   · rename_i hname
     refine ⟨hname, ?_⟩
-    unfold fixedResult at hadd
+    unfold fixedResultS at hadd
     split at hadd
     · cases hadd
     · rename_i pb hpb
@@ -132,7 +132,7 @@ theorem setInertial_addBodyFixed_aux {m : ModelS α} {parent : Nat} {frame : XT 
   simp only at hu1 hu2
   subst hu1 hu2
   rw [addBodyFixed_eq, if_neg hname, hmp, hpX]
-  unfold fixedResult
+  unfold fixedResultS
   simp only [hscratch]
   unfold setInertial
   simp only [hfix, if_true, hk, hfb, hbody, FixedBody.toBody, hsep, hfb']
@@ -153,7 +153,7 @@ theorem setInertial_addBodyFixed_aux {m : ModelS α} {parent : Nat} {frame : XT 
 /-! ### the movable part of `AddBody` -/
 
 /-- the model `AddBody` produces for a joint with its own movable body (name check passed) -/
-def movableResult (m : ModelS α) (parent : Nat) (frame : XT α) (j : Joint α) (b : Body α)
+def movableResultS (m : ModelS α) (parent : Nat) (frame : XT α) (j : Joint α) (b : Body α)
     (name : String) : ModelS α :=
   let t : Nat × XT α :=
     if m.isFixedBodyId parent then
@@ -193,7 +193,7 @@ theorem addBodyMovable_eq (m : ModelS α) (parent : Nat) (frame : XT α) (j : Jo
     (name : String) :
     m.addBodyMovable parent frame j b name
       = if name ≠ "" ∧ m.hasName name then (m, .error .duplicateName)
-        else (m.movableResult parent frame j b name, .ok m.bodies.length) := rfl
+        else (m.movableResultS parent frame j b name, .ok m.bodies.length) := rfl
 
 /-- construction steps (as functions of the body) after which a setter on the returned id acts as
     re-construction with the updated body -/
@@ -214,19 +214,19 @@ theorem setterOK_addBodyMovable (m : ModelS α) (parent : Nat) (frame : XT α) (
     simp only [Prod.mk.injEq, Except.ok.injEq] at hadd
     obtain ⟨hm1, hidEq⟩ := hadd
     subst hidEq hm1
-    have hfix : (m.movableResult parent frame j b name).isFixedBodyId m.bodies.length = false := by
+    have hfix : (m.movableResultS parent frame j b name).isFixedBodyId m.bodies.length = false := by
       simp only [isFixedBodyId, Bool.and_eq_false_iff, decide_eq_false_iff_not]
       omega
     unfold setInertial
     simp only [hfix, Bool.false_eq_true, if_false]
-    have hfix' : isFixedBodyId { m.movableResult parent frame j b name with
-        bodies := (m.movableResult parent frame j b name).bodies.set m.bodies.length
-          (updB ((m.movableResult parent frame j b name).body m.bodies.length)) }
+    have hfix' : isFixedBodyId { m.movableResultS parent frame j b name with
+        bodies := (m.movableResultS parent frame j b name).bodies.set m.bodies.length
+          (updB ((m.movableResultS parent frame j b name).body m.bodies.length)) }
         m.bodies.length = false := hfix
     unfold updateInertiaMatrixForBody
     simp only [hfix', Bool.false_eq_true, if_false]
-    have hb : (m.movableResult parent frame j b name).bodies = m.bodies ++ [b] := rfl
-    have hI : (m.movableResult parent frame j b name).I
+    have hb : (m.movableResultS parent frame j b name).bodies = m.bodies ++ [b] := rfl
+    have hI : (m.movableResultS parent frame j b name).I
         = m.I ++ [RBI.ofMassComInertiaC b.mass b.com b.inertia] := rfl
     simp only [body, hb, hI, getD_append_length, set_append_length]
     rw [← hlen, set_append_length]
@@ -243,7 +243,7 @@ theorem addBodyMovable_lengths {m : ModelS α} {parent : Nat} {frame : XT α} {j
   · simp only [Prod.mk.injEq, Except.ok.injEq] at hadd
     obtain ⟨hm1, _⟩ := hadd
     subst hm1
-    simp [movableResult]
+    simp [movableResultS]
 
 theorem setterOK_addChain (name : String) (axes : List (SV α)) :
     ∀ (m : ModelS α) (parent : Nat) (frame : XT α), m.I.length = m.bodies.length →
@@ -351,7 +351,7 @@ theorem addBodyFixed_snd {m : ModelS α} {parent : Nat} {frame : XT α} {b : Bod
     (h : ((m.body (m.fixedTarget parent frame).1).join (m.fixedTarget parent frame).2 b).isSome) :
     (m.addBodyFixed parent frame b name).2 = .ok (m.fixedBodies.length + fixedDisc) := by
   rw [addBodyFixed_eq, if_neg hname]
-  unfold fixedResult
+  unfold fixedResultS
   obtain ⟨pb, hpb⟩ := Option.isSome_iff_exists.1 h
   simp only [hpb]
 
